@@ -42,23 +42,53 @@ def r_validation(repo, rep, R='R11.1'):
                   '%s does not start with doc, score_results = _type_check(doc, score_results, categories)' % fname)
     tcf = mod.get('_type_check')
     w = '%s:%s _type_check' % (REL, tcf.lineno)
-    raises = [n for n in ast.walk(tcf) if isinstance(n, ast.Raise)]
-    ifs = [n for n in ast.walk(tcf) if isinstance(n, ast.If) and any(isinstance(b, ast.Raise) for b in n.body)]
-    tests = [src(i.test).replace(' ', '').replace('\n', '') for i in ifs]
-    want = {
-        'kind': lambda t: 'many_sentences!=many_scores' in t and 'len(doc)!=len(score_results)' in t,
-        'tags': lambda t: t in ('num_tags!=tag_scores.shape[1]', 'tag_scores.shape[1]!=num_tags'),
-        'shape': lambda t: 'expected_tag_score!=tag_scores.shape' in t and 'expected_dep_score!=dep_scores.shape' in t and 'or' in t,
-    }
-    for name, pred in want.items():
-        rep.check(any(pred(t) for t in tests), R, w, '_type_check:reject:' + name, 'inputs with a wrong %s are rejected with an exception' % name,
-                  'no rejecting test for %s (tests: %s)' % (name, tests))
-    rep.check(len(raises) == 3 and all(isinstance(i.body[0], ast.Raise) for i in ifs), R, w, '_type_check:raises', 'each rejection raises', 'found %d raise statements' % len(raises))
-    txt = src(tcf).replace(' ', '')
-    rep.check('expected_tag_score=(num_tokens,num_tags)' in txt and 'expected_dep_score=(num_tokens,num_tokens+1)' in txt and 'num_tags=len(categories)' in txt
-              and 'num_tokens=len(tokens)' in txt, R, w, '_type_check:shapes',
-              'expected shapes are (tokens, len(categories)) for tags and (tokens, tokens+1) for heads', 'expected shapes changed')
-    rep.check('zip(doc,score_results)' in txt, R, w, '_type_check:all-sentences', 'every sentence of the batch is validated', 'validation does not iterate all sentences')
+    pdoc, pscores, pcats = [a.arg for a in tcf.args.args][:3]
+
+    def ne(a, b):
+        return {show(('cmp', '!=', a, b)), show(('cmp', '!=', b, a))}
+
+    def atoms(t):
+        out = set()
+        for s_ in subterms(t):
+            if s_[0] == 'cmp':
+                out.add(show(s_))
+        return out
+    classes = {'kind': False, 'tags': False, 'shape': False}
+    n_raise = 0
+    every_sentence = False
+    for st, o in SymExec(tcf, unroll=1).run():
+        if o != 'raise':
+            continue
+        n_raise += 1
+        last = [(e[1], e[2]) for e in st.events if e[0] == 'branch'][-1]
+        if not last[1]:
+            continue
+        a = atoms(last[0])
+        ln = lambda x: ('call', N('len'), (x,), ())
+        if a & ne(ln(N(pdoc)), ln(N(pscores))) and any(' != ' in x and 'isinstance' in x for x in a):
+            classes['kind'] = True
+        loop = [e for e in st.events if e[0] == 'loop-enter']
+        if loop:
+            it = loop[0][1]
+            every_sentence = every_sentence or (it[0] == 'call' and it[1] == N('zip') and len(it[2]) == 2)
+            elem = ('elem', it, loop[0][2].lineno)
+            tokens = ('unpack', elem, 0)
+            tag = ('unpack', ('unpack', elem, 1), 0)
+            dep = ('unpack', ('unpack', elem, 1), 1)
+            ntags = ln(N(pcats))
+            ntok = ln(tokens)
+            if a & ne(ntags, ('sub', A(tag, 'shape'), C(1))) and len(a) == 1:
+                classes['tags'] = True
+            exp_tag = ('tuple', (ntok, ntags))
+            exp_dep = ('tuple', (ntok, ('binop', '+', ntok, C(1))))
+            if a & ne(exp_tag, A(tag, 'shape')) and a & ne(exp_dep, A(dep, 'shape')) and last[0][0] == 'bool' and last[0][1] == 'or':
+                classes['shape'] = True
+    for name, ok in classes.items():
+        what = {'kind': 'a document/score pair of different kinds or lengths', 'tags': 'a tag matrix whose width is not len(categories)',
+                'shape': 'score matrices that are not (tokens x tags) and (tokens x tokens+1)'}[name]
+        rep.check(ok, R, w, '_type_check:reject:' + name, '%s is rejected with an exception' % what, 'no raising path rejects %s' % what)
+    rep.check(n_raise >= 3, R, w, '_type_check:raises', 'each rejection raises (%d raising paths)' % n_raise, 'found %d raising paths' % n_raise)
+    rep.check(every_sentence, R, w, '_type_check:all-sentences', 'every sentence of the batch is validated against its own scores', 'validation does not iterate zip(doc, score_results)')
 
 
 def r_chunks(repo, rep, R='R11.2'):
